@@ -424,6 +424,39 @@ func runOne(tw *tr.W, root string, idx int, b Behaviour, seed int64) error {
 				return err
 			}
 			tw.Emit(tr.M{"ev": "block", "num": w.l2last, "leaves": leaves, "claims": claims})
+		case "l2reorg":
+			// an L2 reorg of the tip (1-2 blocks) that no settled or still undecided certificate covers; the dropped blocks are
+			// replaced by new ones with different content
+			covered := uint64(0)
+			n.ag.mu.Lock()
+			for _, c := range n.ag.certs {
+				if c.status != agglayertypes.InError {
+					if m, err := types.NewCertificateMetadataFromHash(c.cert.Metadata); err == nil && m.FromBlock+uint64(m.Offset) > covered {
+						covered = m.FromBlock + uint64(m.Offset)
+					}
+				}
+			}
+			n.ag.mu.Unlock()
+			from := w.l2last
+			if s.Nb > 1 && from > 1 {
+				from--
+			}
+			if from <= covered || from == 0 {
+				tw.Emit(tr.M{"ev": "skip", "why": "no uncovered L2 block to reorg"})
+				continue
+			}
+			dropped := int(w.l2last - from + 1)
+			if err := w.reorgL2(ctx, from); err != nil {
+				return err
+			}
+			tw.Emit(tr.M{"ev": "l2reorg", "from": from})
+			for i := 0; i < dropped; i++ {
+				leaves, claims, err := w.addL2Block(ctx, 1+i%2, s.Nc)
+				if err != nil {
+					return err
+				}
+				tw.Emit(tr.M{"ev": "block", "num": w.l2last, "leaves": leaves, "claims": claims})
+			}
 		case "finalize":
 			w.finalized = uint64(s.Fin)
 			tw.Emit(tr.M{"ev": "finalize", "blk": s.Fin})
